@@ -100,7 +100,7 @@ func main() {
 	r := ev.Start("C03")
 	defer r.RecoverMain()
 	defer world.Cleanup()
-	r.SetBudget(ev.Pick(r, 150*time.Second, 30*time.Minute))
+	r.SetBudget(ev.Pick(r, 240*time.Second, 45*time.Minute))
 	r.Assume("steady state: initial content was written and mirrored by a previous complete sync step; all remote versions are older than anything the application writes, so any change of an application-written key is a violation",
 		"goroutine scheduling follows a fixed policy (background downloads run to completion before the loop continues); the explored choices are the environment's answers: application commits at every loop hook, straddling application transactions, remote snapshot arrival")
 	bound := ev.Pick(r, 2, 3)
@@ -114,6 +114,12 @@ func main() {
 		// with the tomb sweeper enabled: stale remote deletion markers meet live local data
 		xrun.Explore(r, "loop-"+name+"-sweeper-enabled", xrun.Opts{Kind: "x", Bound: ev.Pick(r, 2, 3), Budget: 30, Recycle: 4,
 			Param: loopworld.Cfg{Native: native, Remote2: true, Sweeper: true, MaxVisits: 1, AppOps: []string{"put-a", "put-b", "del-a"}}})
+		if r.Expired() {
+			continue
+		}
+		// two remote instances publish at once: several merges in one pass of the loop, application commits in between
+		xrun.Explore(r, "loop-"+name+"-two-remotes", xrun.Opts{Kind: "x", Bound: bound, Budget: 30, Recycle: 4,
+			Param: loopworld.Cfg{Native: native, Remote2: true, TwoRemotes: true, MaxVisits: 1, AppOps: []string{"put-b", "del-a", "newdbi"}}})
 	}
 	r.Finish()
 }
